@@ -471,6 +471,17 @@ def gen_mpscr(ctx, tier, rng):
     al = Alloc(20)
     cases.append(core.fmt_case([3000, 16], [mr_prog(al, [POP, ("push", 15), POP, POP, ("push", 0), POP])], []))
     cases.append(core.fmt_case([300, 3], [[(POP, 0), (POP, 0)], []], []))
+    # the round-robin cursor crosses a power of two during the run (a narrower cursor type would wrap there): the real
+    # cursor starts at the largest multiple of np at most B - d, reported values debiased (rt_bias), model run from 0
+    wrap = []
+    pool = [c for c in cases if c.split()[0] == "2"]
+    for c in rng.sample(pool, min(len(pool), 500 if tier == "quick" else 5000)):
+        v = c.split()
+        npr = int(v[2])
+        B = rng.choice([1 << 32, 1 << 32, 1 << 31, 1 << 16])
+        bias = ((B - rng.randint(0, 3 * npr)) // npr) * npr
+        wrap.append(" ".join(["3", v[1], v[2], str(bias)] + v[3:]))
+    cases += wrap
     return cases, n_ex, nrand
 
 
